@@ -38,6 +38,10 @@ CLAIMED = {
                 text="The upgrade gate's decision table is written in TLA+ from the property text and PROTOCOL.md (three-valued: a variant the property does not decide is 'either'); TLC checks its theorems over all verdict vectors and enumerates the valid request, all single and pair deviations (thorough: triples, a configured backend) x configurations; every case is built as a concrete http::Request, sent to rusty_penguin_lib::server::State in-process together with the identical request on an unknown path, and TLC re-classifies the logged request octets itself and validates status, headers, body, protocol header and an independently computed RFC 6455 accept hash.",
                 note="thin use of TLA+ (decision table); in-process call: hyper's HTTP/1 parser and the tunnel behind a 101 are not exercised; the backend-configured variant runs in the thorough tier only",
                 ref="DESIGN.md section 4 (C14)"),
+    "C19": dict(engine="retry", technique="TLA+ models of the back-off generator and of the reconnection loop (Backoff.tla, ClientRetry.tla) enumerated by TLC; real Backoff and real client against a scripted server; logs validated by TLC",
+                text="Backoff.tla: TLC enumerates every small (initial, max, multiplier, max_count) tuple and every advance/reset sequence; each is replayed on the real penguin_mux::timing::Backoff and every returned value validated. ClientRetry.tla: the attempt loop with the clauses DelaySequence, ResetAfterSuccess, GiveUpExactly, NonRetryableEndsAtOnce, ListenerAlive, NoLostRequest; TLC enumerates scripts of server behaviours per attempt (refuse, stall, bad response, close orderly/abruptly after d ms, healthy); the real client_main_inner runs against a scripted fake server on loopback and TLC validates each timeline (counts and order exact, time gaps with an exact lower and a generous upper bound).",
+                note="real time and the real tokio runtime for the reconnection part (run sequentially, never overlapping with TLC); upper time bounds generous (delay + handshake_timeout + 1.5 s); a panic of Backoff next to Duration::MAX is accepted (outside the property's quantifier) and counted",
+                ref="DESIGN.md section 4 (C19)"),
     "C16": dict(engine="keepalive", technique="timed TLA+ model (Keepalive.tla) checked by TLC + virtual-time traces of the real task validated by TLC",
                 text="TLC checks the clauses of C16 on the tick-based detector for every (I,T) of a grid and every pong history within the horizon (integer time); the real connection task runs on tokio's paused clock against a silent transport with a scripted responder for TLC-enumerated and random cases, and TLC evaluates the same clause definitions on every virtual-time trace.",
                 note="virtual time (exact); FIFO pongs; same-instant events may be processed in either order; finding F12 (false timeouts when I does not divide T) is a known design-level finding",
@@ -58,7 +62,6 @@ for p in props:
 
 PENDING = {
     "C01": "end-to-end tunnel driver not built yet in this session",
-    "C19": "back-off / reconnection drivers under construction",
 }
 manifest = dict(
     version=1, setup_cmd="python3 tools/setup.py",
@@ -74,6 +77,7 @@ manifest = dict(
         dict(name="chain", path="tools/fam_chain.py", serves_properties=["C20"], kind_free_text="Chain.tla / ChainTrace.tla + harness chain_vec"),
         dict(name="keepalive", path="tools/fam_keepalive.py", serves_properties=["C16"], kind_free_text="Keepalive.tla / KeepaliveTrace.tla + harness keepalive_sim"),
         dict(name="gate", path="tools/fam_gate.py", serves_properties=["C14"], kind_free_text="Upgrade.tla / MC_Upgrade.tla / UpgradeTrace.tla + harness_app gate"),
+        dict(name="retry", path="tools/fam_retry.py", serves_properties=["C19"], kind_free_text="Backoff.tla / ClientRetry.tla / BackoffTrace.tla / RetryTrace.tla + harness backoff_vec + harness_app retry_sim"),
         dict(name="wake", path="tools/fam_wake.py", serves_properties=["C12"], kind_free_text="WriterWake.tla / WakeTrace.tla + loom hook penguin-mux/src/verif_wake.rs"),
         dict(name="tls", path="tools/fam_tls.py", serves_properties=["C17"], kind_free_text="TlsAuth.tla / MC_TlsAuth.tla / TlsTrace.tla + harness_app tls_matrix"),
     ],
